@@ -230,6 +230,8 @@ where
         μ: T,
         scaling_strategy: ScalingStrategy,
     ) -> bool {
+        #[cfg(clarabel_verif)]
+        crate::verif::emit(crate::verif::Event::Yield);
         let mut is_scaling_success;
         for (cone, rng) in zip(&mut self.cones, &self.rng_cones) {
             let si = &s[rng.clone()];
@@ -271,6 +273,8 @@ where
     }
 
     fn combined_ds_shift(&mut self, shift: &mut [T], step_z: &mut [T], step_s: &mut [T], σμ: T) {
+        #[cfg(clarabel_verif)]
+        crate::verif::emit(crate::verif::Event::Yield);
         // Here we must first explicitly borrow the subvector
         // of cones, since trying to access it using self.iter_mut
         // causes a borrow conflict with ranges.
@@ -306,6 +310,8 @@ where
         settings: &CoreSettings<T>,
         αmax: T,
     ) -> (T, T) {
+        #[cfg(clarabel_verif)]
+        crate::verif::emit(crate::verif::Event::Yield);
         let mut α = αmax;
         let all_symmetric = self.is_symmetric();
 
